@@ -47,8 +47,10 @@ var credVariants = map[string]string{
 	"bad-base64": "Basic !!!notbase64!!!",
 	"empty-user": "Basic " + b64(":pw"),
 	"empty-pw":   "Basic " + b64("alice:"),
+	"shifted":    "Basic " + b64("alic:epw"),  // user and password with the boundary moved: the concatenation is the same
+	"glued":      "Basic " + b64(":alicepw"),  // empty user, password = user followed by password
 }
-var credOrder = []string{"absent", "alice-ok", "alice-bad", "bob-ok", "user-only", "lower-case", "bad-base64", "empty-user", "empty-pw"}
+var credOrder = []string{"absent", "alice-ok", "alice-bad", "bob-ok", "user-only", "lower-case", "bad-base64", "empty-user", "empty-pw", "shifted", "glued"}
 
 func presents(variant, user, pw string) bool {
 	h := credVariants[variant]
@@ -805,7 +807,7 @@ func main() {
 	if c == nil {
 		return
 	}
-	c.Rule("complete product of route tables (all conflict-free subsets of size <= 3 of 6 routes mixing open, password-protected, location-scoped and user-routed routes on one host plus a catch-all) x request forms (origin-form / absolute-form targets, plain and percent-encoded location, GET / POST / CONNECT, HTTP/1.1 and h2c prior knowledge) x 9 Authorization variants x 9 Proxy-Authorization variants through the real reverse proxy with one marker backend per route; CONNECT credentials at the real tcpmux muxer; http_proxy (GET and CONNECT, single requests and two-request keep-alive sequences), socks5 (6 negotiation modes), static_file plugins, each configured with user + password, user only and password only; end-to-end wiring of configured credentials to every public name of http and tcpmux proxies; every route of the dashboard and of the admin API x 6 credential shapes; non-trivial = distinct (table, request) case")
+	c.Rule("complete product of route tables (all conflict-free subsets of size <= 3 of 6 routes mixing open, password-protected, location-scoped and user-routed routes on one host plus a catch-all) x request forms (origin-form / absolute-form targets, plain and percent-encoded location, GET / POST / CONNECT, HTTP/1.1 and h2c prior knowledge) x 11 Authorization variants x 11 Proxy-Authorization variants (among them the right user and password with the boundary between them moved) through the real reverse proxy with one marker backend per route; CONNECT credentials at the real tcpmux muxer; http_proxy (GET and CONNECT, single requests and two-request keep-alive sequences), socks5 (6 negotiation modes), static_file plugins, each configured with user + password, user only and password only; end-to-end wiring of configured credentials to every public name of http and tcpmux proxies; every route of the dashboard and of the admin API x 6 credential shapes; non-trivial = distinct (table, request) case")
 	c.Assume("real sockets on loopback, one request per fresh front end; 'presents the credentials' = a well-formed Basic header with exactly user:password in Authorization or Proxy-Authorization")
 
 	// (a)
